@@ -29,7 +29,7 @@
 (*             = "old_wins" union of the labels, OLD rows win (mutant:     *)
 (*                          old.combine_first(new)).                        *)
 (***************************************************************************)
-EXTENDS Common, TLC, Json
+EXTENDS UpdateMergeDefs, TLC, Json
 
 CONSTANTS L, MaxBatches, MergeMode, Emit, NSlices, Slice
 
@@ -40,16 +40,7 @@ VARIABLES hist,      \* the batches so far (label sets), hist[1] is the fit
           table      \* what _fit received last: sequence of <<label, value>>
 vars == <<hist, table>>
 
-ValueOf(i, l) == 10 * i + l
-RowsOf(i, B) == [k \in 1..Cardinality(B) |-> <<SortedSeq(B)[k], ValueOf(i, SortedSeq(B)[k])>>]
-LabelsOf(t) == {t[k][1] : k \in 1..Len(t)}
-RowAt(t, l) == t[CHOOSE k \in 1..Len(t) : t[k][1] = l]
-
-(* ------------------------------ property layer -------------------------- *)
-LastHolder(h, l) == Max({i \in 1..Len(h) : l \in h[i]})
-Combined(h) ==
-    LET U == UNION {h[i] : i \in 1..Len(h)}
-    IN [k \in 1..Cardinality(U) |-> LET l == SortedSeq(U)[k] IN <<l, ValueOf(LastHolder(h, l), l)>>]
+(* property layer: UpdateMergeDefs.tla (ValueOf, RowsOf, LabelsOf, RowAt, LastHolder, Combined) *)
 
 (* --------------------------- implementation layer ----------------------- *)
 LabelMerge(old, new, newWins) ==
